@@ -599,6 +599,8 @@ class Sym:
                 # field of an aggregate we know: project
                 if e[0] == "agg" and e[1] in ("tuple",) and el["n"].isdigit() and int(el["n"]) < len(e[3]):
                     e = e[3][int(el["n"])]
+                elif e[0] == "agg" and e[1] == "std::option::Option" and e[2] == "Some" and el["n"] == "0" and len(e[3]) == 1:
+                    e = e[3][0]     # the payload of a Some(..) built in this body (a loop element bound by unrolling)
                 elif e[0] == "bin" and e[1].endswith("WithOverflow") and el["n"] == "0":
                     # (a +checked b).0 is the value of a + b: same expression in debug and release builds
                     e = ("bin", e[1][:-len("WithOverflow")], e[2], e[3])
@@ -610,7 +612,10 @@ class Sym:
                 else:
                     e = ("field", e, el["n"])
             elif "d" in el:
-                e = ("as", e, el["d"])
+                if e[0] == "agg" and e[2] == el["d"] and e[1] == "std::option::Option":
+                    pass    # viewing a value built as that variant as that variant
+                else:
+                    e = ("as", e, el["d"])
             elif "i" in el:
                 e = ("index", e, self.local(el["i"], depth + 1))
             elif "ci" in el:
